@@ -955,8 +955,22 @@ func Abs(env envs.Environment, num *types.XNumber) types.XValue {
 //
 // @function round(number [,places])
 func Round(env envs.Environment, num *types.XNumber, places int) types.XValue {
+	if xerr := checkRoundingPlaces(places); xerr != nil {
+		return xerr
+	}
+
 	return types.NewXNumber(num.Native().Round(int32(places)))
 }
+
+// rounding rescales a number by 10^places so we need to limit places to something we can reasonably calculate
+func checkRoundingPlaces(places int) *types.XError {
+	if places < -maxRoundingPlaces || places > maxRoundingPlaces {
+		return types.NewXErrorf("must take a number of places between %d and %d, got %d", -maxRoundingPlaces, maxRoundingPlaces, places)
+	}
+	return nil
+}
+
+const maxRoundingPlaces = 1000
 
 // RoundUp rounds `number` up to the nearest integer value.
 //
@@ -971,6 +985,10 @@ func Round(env envs.Environment, num *types.XNumber, places int) types.XValue {
 //
 // @function round_up(number [,places])
 func RoundUp(env envs.Environment, num *types.XNumber, places int) types.XValue {
+	if xerr := checkRoundingPlaces(places); xerr != nil {
+		return xerr
+	}
+
 	dec := num.Native()
 	if dec.Round(int32(places)).Equal(dec) {
 		return num
@@ -995,6 +1013,10 @@ func RoundUp(env envs.Environment, num *types.XNumber, places int) types.XValue 
 //
 // @function round_down(number [,places])
 func RoundDown(env envs.Environment, num *types.XNumber, places int) types.XValue {
+	if xerr := checkRoundingPlaces(places); xerr != nil {
+		return xerr
+	}
+
 	dec := num.Native()
 	if dec.Round(int32(places)).Equal(dec) {
 		return num
